@@ -377,7 +377,7 @@ pub fn showincludes_unit(u: u64, maxlines: usize) -> CaseOut {
     }
     out.nontrivial = true;
     out.fp = 0x5100 + u;
-    out.extra_fps = (0..filtered_some).map(|i| ((0x5100 + u) << 32) | i).collect();
+    out.extra_distinct = filtered_some.saturating_sub(1);
     out.desc = serde_json::json!({"first_line": String::from_utf8_lossy(SI_LINES[u as usize]), "outputs_checked": out.evals, "with_include_lines": filtered_some});
     out
 }
